@@ -205,6 +205,17 @@ def step (st : St) (op res : String) : St × List String :=
         (if get "refill" == "ok" || get "refill" == "-" then [] else ["FAIL C06 large pool: a freed block was not handed out again (or the pool was not full afterwards)", "FAIL C05 large pool: a freed block was not handed out again (or the pool was not full afterwards)"])
       (st, "br:acap6" :: (if fails.isEmpty then [] else "DIVERGE dom model=exact-capacity" :: fails))
     | _, _ => (st, ["DIVERGE drift unparsed-op"])
+  | "ahchurn" :: _, .none => (st, ["br:skipped.no-allocator"])
+  | "ahchurn" :: _, _ =>
+    -- k callers at once, each naming its own free block (neighbours in the bitmap) as a hint, taking it and freeing it: in every
+    -- one-at-a-time order each hint names a free block and is answered with exactly that block (C07), and each Free is of an
+    -- outstanding block and succeeds (C06)
+    if res == "ok" || res == "full" then (st, ["br:ahchurn"])
+    else (st, ["br:ahchurn", "DIVERGE dom model=hint-naming-a-free-block-is-honoured"] ++
+              (if res.startsWith "hint" then [s!"FAIL C07 callers taking and freeing their own hinted blocks at once: {res}"] else
+               if res.startsWith "free" then [s!"FAIL C06 callers taking and freeing their own hinted blocks at once: {res}"] else
+               [s!"FAIL C01 callers taking and freeing their own hinted blocks at once: {res}"]) ++
+              [s!"FAIL C16 callers taking and freeing their own hinted blocks at once (no one-at-a-time order does that): {res}"])
   | "achurn" :: _, .none => (st, ["br:skipped.no-allocator"])
   | "achurn" :: _, _ =>
     -- k callers at once, each taking a block and freeing its own (harness/alloc.go): in every one-at-a-time order no block is
